@@ -220,6 +220,10 @@ class Engine:
     def _cleanup(self, ident):
         self.cleanups_run[ident] += 1
         self.world.rec('cleanup', ident)
+        if self.opts.get('cleanup_registers') and ident == 1 and 'nested' not in self.cleanups_run:
+            # a cleanup that registers a further cleanup while the process is closing: accepted, hence run (once) as well
+            self.cleanups_run['nested'] = 0
+            self.proc.add_cleanup(lambda: self._cleanup('nested'))
         if self.opts.get('cleanup_raises') and ident == 0:
             # a registered cleanup that fails: logged by the process, the other cleanups still run, nothing else changes
             raise RuntimeError('cleanup 0 failed')
